@@ -92,6 +92,17 @@ def eval_oil(case):
         elif not close(float(got), d, rel):
             viol.append(V("dRs/dp", f"dgor_dpressure_Standing at p = {f} p_b = {got!r}; exact derivative of "
                           f"solution_gor_Standing = {d!r}", case=c, observed=float(got), expected=d, tol=REL))
+        # the same pressure in the other container forms the function accepts today (0-d array, one-element array):
+        # whatever is returned must be the scalar call's value (an array branch that drifts from the scalar formula)
+        for form, q in (("0-d array", np.array(p)), ("one-element array", np.array([p]))):
+            try:
+                got_f = np.asarray(oil.dgor_dpressure_Standing(T, q, api, g, gor), dtype=float).ravel()
+            except Exception:  # noqa: BLE001 - array input is not part of the function's contract
+                continue
+            if got_f.size != 1 or not (got_f[0] == float(got) or close(float(got_f[0]), float(got), 1e-14)):
+                viol.append(V("dRs/dp-container-form", f"dgor_dpressure_Standing at p = {f} p_b given as a {form} returns "
+                              f"{got_f.tolist()}; the scalar call returns {float(got)!r}", case=c))
+                break
         if f == 0.5:  # the same pressure given as an integer (Python int, np.int64): dtype must not leak in
             pi = int(p)
             _, want, rel_i = derivative(lambda q: oil.solution_gor_Standing(T, q, api, g, gor), float(pi))
